@@ -155,6 +155,13 @@ def run_batch_property(prop, tier, seed):
     violations = []
     infra = None
     for wave in range(st["waves"]):
+        # build configuration is part of "every parser": the last wave of a thorough run is built without debug assertions
+        # and overflow checks (C19 keeps them: its underflow clause is about the checked build)
+        profile = "nodbg" if (tier == "thorough" and st["waves"] >= 2 and wave == st["waves"] - 1 and prop != "C19") else None
+        if os.environ.get("VERIF_PROFILE"):
+            profile = os.environ["VERIF_PROFILE"]
+        if profile:
+            extra_cov["waves_without_debug_assertions"] = extra_cov.get("waves_without_debug_assertions", 0) + 1
         out = batch.generate(plan, seed, st["count"], tier, wave, repo_grammars=(prop in batch.WITH_REPO_GRAMMARS and wave == 0))
         if out is None:
             infra = "genner failed"
@@ -176,21 +183,21 @@ def run_batch_property(prop, tier, seed):
         for k, v in gs["plan_stats"].get("rejected", {}).items():
             extra_cov["gen_rejected"][k] = extra_cov["gen_rejected"].get(k, 0) + v
         extra_cov["gen_attempts"] += gs["plan_stats"].get("attempts", 0)
-        rc, errors, other = batch.build(out)
+        rc, errors, other = batch.build(out, profile)
         if errors:
             extra_cov["uncompilable"] += len(errors)
             log("uncompilable grammars (C03 cases): %s" % sorted(errors)[:10])
             if not batch.prune(out, set(errors)):
                 infra = "prune failed"
                 break
-            rc, errors2, other = batch.build(out)
+            rc, errors2, other = batch.build(out, profile)
             if errors2:
                 infra = "batch still does not compile after pruning: %s" % sorted(errors2)[:5]
                 break
         if rc != 0:
             infra = "batch build failed: %s" % (other[:3],)
             break
-        partials, hangs, died = batch.run_wave(prop, out, seed + wave * 7919, st["cases"], max_len)
+        partials, hangs, died = batch.run_wave(prop, out, seed + wave * 7919, st["cases"], max_len, profile=profile)
         for c, h in hangs:
             hv = h.get("hang") or {}
             if prop in ("C01", "C07"):
